@@ -79,9 +79,49 @@ PROPS = {
     },
 }
 
+def vstream(profile, quick, thorough, **kw):
+    d = {"bin": "vh", "engine": "vstream", "profile": profile,
+         "cases": {"quick": quick, "thorough": thorough},
+         "timeout_s": {"quick": 600, "thorough": 3000}, "sample_keys": [profile]}
+    d.update(kw)
+    return d
+
+
+VSTREAM_ASSUME = [
+    "runtime monitoring of the real writers: only the generated streams were observed",
+    "streams: 3/4 synthetic (random forests of features/rules/scenarios/retry attempts with hooks, logs, all failure kinds), 1/4 recorded from real runner::Basic runs; every event carries a unique token in its timestamp so the recording writer knows exactly which input event it received",
+]
+
+PROPS.update({
+    "C11": {
+        "engine_name": "vstream",
+        "workloads": [vstream("c11", 8000, 150000)],
+        "rule": "input = random topological interleaving of the happened-before order of a random forest (also interleavings runner::Basic never emits), every 5th one already sequential; the oracle compares (input prefix, output prefix) after EVERY handle_event call; non-trivial = >=2 features or a rule, with >=1 event buffered at some call; distinct by interleaving hash",
+        "floor": {"quick": 500, "thorough": 3000},
+        "assumptions": VSTREAM_ASSUME + ["the order among entities that are not at the head of the output is left free, as in the statement"],
+    },
+    "C12": {
+        "engine_name": "vstream",
+        "workloads": [vstream("c12", 8000, 150000)],
+        "rule": "normalized contract-abiding streams fed to Summarize<recording writer>, with and without Repeat::failed outside; counters compared with an independent fold written from the statement; non-trivial = a scenario with a retry, a hook failure or a skip; distinct by per-scenario attempt-outcome word (step failed, hook failed, skipped per attempt). Streams containing the shapes of the recorded findings are evaluated again with those scenarios removed",
+        "floor": {"quick": 30, "thorough": 60},
+        "assumptions": VSTREAM_ASSUME + ["a not-found failure (skipped step turned into a failure by fail_on_skipped) is terminal: the runner never retries it"],
+    },
+    "C13": {
+        "engine_name": "vstream",
+        "workloads": [vstream("c13", 6000, 100000)],
+        "rule": "arbitrary streams (interleaved, sequential, every 7th randomly shuffled = not contract-abiding) through FailOnSkipped (default and custom predicate), Repeat (skipped / failed / custom filter), Tee (events and arbitrary writes, scripted stats), Or (routing by token, scripted stats) and the nesting FailOnSkipped<Repeat<Tee<..>>>; non-trivial = the stream has events the wrapper must transform / repeat / route; distinct by the stream's skipped/failed/finished shape",
+        "floor": {"quick": 300, "thorough": 2000},
+        "assumptions": VSTREAM_ASSUME,
+    },
+})
+
 NOT_APPLICABLE = {}
 
 ENGINES = [
+    {"name": "vstream", "path": "harness/vh (src/synth.rs, src/recw.rs, src/oracles_stream.rs)",
+     "serves_properties": ["C11", "C12", "C13", "C14"],
+     "kind_free_text": "synthetic + recorded event streams pushed through the real writers into recording writers; per-call prefix oracles (Normalize), independent fold (Summarize), token-exact transparency checks (combinators)"},
     {"name": "vrun", "path": "harness/vh (src/exec.rs, src/world.rs, src/oracles_run.rs)",
      "serves_properties": ["C01", "C02", "C03", "C04", "C05", "C06", "C07", "C08", "C09", "C10", "C18"],
      "kind_free_text": "manual executor polling runner::Basic's real event stream; instrumented World/hooks/steps with scheduler-controlled gates; lazy parser stream; quiescent-point invariants; CPU-time watchdog for in-poll spins"},
